@@ -387,27 +387,25 @@ def run_r(res, module_names, select=None, root=None, seed=0):
         contracts.update(m.CONTRACTS)
         units += m.UNITS
     n = 0
-    for u in units:
-        if select and not select(u.name):
-            continue
+    todo = [u for u in units if not (select and not select(u.name))]
+    global _R_JOB
+    _R_JOB = (root, todo, contracts, seed)
+    if len(todo) >= 4 and os.environ.get("VERIF_R_SERIAL") != "1":
+        # units are independent: fork a pool (the units hold closures, so workers address them by index)
+        import multiprocessing as mp
+        with mp.get_context("fork").Pool(min(16, len(todo), os.cpu_count() or 4)) as pool:
+            results = pool.map(_r_one, range(len(todo)), chunksize=1)
+    else:
+        results = [_r_one(i) for i in range(len(todo))]
+    for u, (kind, payload, calls, vac) in zip(todo, results):
         n += 1
-        try:
-            obs, calls = ring.run_unit(root, u, contracts, seed=seed)
-        except ring.OutsideFragment as e:
-            res.undecided.append(f"R unit {u.name}: outside the fragment: {e}")
+        if kind != "ok":
+            res.undecided.append(payload)
             continue
-        except ring.AstLost as e:
-            res.undecided.append(f"R unit {u.name}: lost anchor: {e}")
-            continue
-        for o in obs:
+        for o in payload:
             res.add_ob(**o)
-        # vacuity guard for R: the same unit against a perturbed contract must FAIL
-        try:
-            pobs, _ = ring.run_unit(root, u, contracts, seed=seed, perturb=_perturb)
-            if all(o["status"] == "discharged" for o in pobs):
-                res.undecided.append(f"R unit {u.name}: perturbed contract was NOT refuted (vacuous comparison)")
-        except (ring.OutsideFragment, ring.AstLost):
-            pass
+        if vac:
+            res.undecided.append(vac)
         res.units.append({"unit": u.name, "fn": u.fn, "file": u.file, "backend": "ringcheck",
                           "callee_contracts_used": sorted(set(calls))})
     for mn in module_names:
@@ -425,6 +423,30 @@ def run_r(res, module_names, select=None, root=None, seed=0):
     if not getattr(res, "checker_cmd", None):
         res.checker_cmd = "./check %s  (ringcheck: vfx ast <file> <fn> | vlib/ring.py | vlib/poly.py normal form)" % res.pid
     return n
+
+
+_R_JOB = None
+
+
+def _r_one(i):
+    """one ring unit: the real run and the vacuity run (the same unit against a perturbed contract must FAIL)"""
+    from . import ring
+    root, todo, contracts, seed = _R_JOB
+    u = todo[i]
+    try:
+        obs, calls = ring.run_unit(root, u, contracts, seed=seed)
+    except ring.OutsideFragment as e:
+        return ("undecided", f"R unit {u.name}: outside the fragment: {e}", [], None)
+    except ring.AstLost as e:
+        return ("undecided", f"R unit {u.name}: lost anchor: {e}", [], None)
+    vac = None
+    try:
+        pobs, _ = ring.run_unit(root, u, contracts, seed=seed, perturb=_perturb)
+        if all(o["status"] == "discharged" for o in pobs):
+            vac = f"R unit {u.name}: perturbed contract was NOT refuted (vacuous comparison)"
+    except (ring.OutsideFragment, ring.AstLost):
+        pass
+    return ("ok", obs, list(calls), vac)
 
 
 def _perturb(out):
